@@ -169,7 +169,9 @@ Definition obs_source (s : src) : list Z :=
 Definition enc_got (p : option pdu) : list Z :=
   match p with
   | None => []
-  | Some p => let e := enc_pdu p in zlen e :: e ++ [pdu_len p]
+  | Some p => let e := enc_pdu p in
+              (* packed length; whether it parses back (spacepackets cannot parse File Data without data) *)
+              zlen e :: e ++ [pdu_len p; match p with PFileData h _ [] => b2z (h_crc h) | _ => 1 end]
   end.
 
 Definition enc_file (t : tree) (p : path) : list Z :=
